@@ -190,6 +190,7 @@ type Interp struct {
 	wideN    int
 	forks    int
 	pending  map[string]Finding // tentative borrow findings keyed by the value number of the difference
+	pendingAdd map[string]Finding // tentative overflow findings of x + (b<<k), settled by the following - y
 	globals  map[*ssa.Global]int
 	Err      error
 	InstrsSeen map[ssa.Instruction]bool
@@ -512,12 +513,26 @@ func JoinStates(a, b *State) *State {
 	return out
 }
 
+// isShlOfBorrow: one operand is ((x - y) >> (W-1)) << k, i.e. the addition may be the first half of x + (b<<k) - y.
+func isShlOfBorrow(a, b Val) bool {
+	for _, o := range []Val{a, b} {
+		if o.Sym != nil && o.Sym.Op == "shl" && o.Sym.Args[0].Op == "shr" && int(o.Sym.Args[0].K.Int64()) == o.W-1 && o.Sym.Args[0].Args[0].Op == "sub" {
+			return true
+		}
+	}
+	return false
+}
+
 // Finish turns the remaining tentative findings into findings.
 func (it *Interp) Finish() {
 	for _, f := range it.pending {
 		it.flag(f.Kind, f.Msg, f.Instr)
 	}
 	it.pending = nil
+	for _, f := range it.pendingAdd {
+		it.flag(f.Kind, f.Msg, f.Instr)
+	}
+	it.pendingAdd = nil
 }
 
 // UndecidedBranch is returned when control depends on an abstract value.
@@ -851,6 +866,13 @@ func (it *Interp) binop(f *frame, x *ssa.BinOp) {
 		var fl []Flag
 		r, fl = Add(a, b, it.bounds)
 		for _, g := range fl {
+			if g.Kind == "overflow" && r.Sym != nil && isShlOfBorrow(a, b) {
+				if it.pendingAdd == nil {
+					it.pendingAdd = map[string]Finding{}
+				}
+				it.pendingAdd[r.Sym.Key] = Finding{Kind: g.Kind, Msg: g.Msg, Instr: x, Fn: x.Parent(), Stack: append([]string{}, it.stack...)}
+				continue
+			}
 			it.flag(g.Kind, g.Msg, x)
 		}
 		if len(fl) == 0 {
@@ -866,7 +888,13 @@ func (it *Interp) binop(f *frame, x *ssa.BinOp) {
 		}
 	case token.SUB:
 		var fl []Flag
-		r, fl = Sub(a, b)
+		r, fl = SubB(a, b, it.bounds)
+		if len(fl) == 0 {
+			if _, _, _, ok := isBorrowCompensation2(a, b); ok && a.Sym != nil {
+				// the overflow of x + (b<<k) is part of the idiom: settle the tentative finding of that addition
+				delete(it.pendingAdd, a.Sym.Key)
+			}
+		}
 		for _, g := range fl {
 			if g.Kind == "borrow" && r.Sym != nil && !a.Signed {
 				// tentative: x - y + (lt(x,y) << k) compensates the borrow; decided when the difference is consumed
@@ -940,12 +968,27 @@ func (it *Interp) binop(f *frame, x *ssa.BinOp) {
 	f.env[x] = it.note(r)
 }
 
+func (it *Interp) zeroObj(id int) {
+	o := it.St.Objs[id]
+	for i := range o.Vals {
+		o.Vals[i] = ConstInt(0, o.W, o.Sg)
+	}
+	for _, k := range o.Kids {
+		it.zeroObj(k)
+	}
+}
+
 func (it *Interp) store(addr, v AnyVal, in ssa.Instruction) {
 	p, ok := addr.(PtrV)
 	if !ok {
 		return
 	}
 	o := it.St.Objs[p.Obj]
+	if _, isNil := v.(NilV); isNil && p.Idx == -1 && (o.Kind == "agg" || (o.Kind == "arr" && len(o.Vals) > 1)) {
+		// `*p = T{}`: the zero value of an aggregate
+		it.zeroObj(p.Obj)
+		return
+	}
 	switch {
 	case o.Kind == "arr" && p.Idx >= 0 && o.View == 0:
 		if iv, ok := v.(Val); ok && p.Idx < len(o.Vals) {
